@@ -185,6 +185,9 @@ func init() {
 
 		// errors
 		"errors.Is": extErrorsIs,
+
+		// only used to size (un)marshalling headers in package initialisers
+		"encoding/binary.Size": func(fr *frame, a []value) value { return 8 },
 	} {
 		if v != nil {
 			externals[k] = v
